@@ -100,7 +100,7 @@ func c06Inputs() []c06Input {
 		jr.T("2020-03-31", "d3", jr.B(accOpening, accCash, "1", "USD"), jr.B(accCash, accOpening, "1", "EUR")),
 	})
 	in = append(in, c06Input{Name: "weights-crossed", Files: map[string]string{"j.knut": crossed}, Args: []string{"portfolio", "weights", "-v", "CHF", "--color=false", "--months", "j.knut"}})
-	// a file reached over two paths four levels down (loaded twice by design, never a cycle)
+	// a file reached over two paths four levels down (part of the journal once, never a cycle)
 	deep := map[string]string{
 		"root.knut": "include \"y.knut\"\n2020-01-01 open Assets:A\n", "y.knut": "include \"q.knut\"\n2020-01-01 open Expenses:Food\n",
 		"q.knut": "include \"x.knut\"\ninclude \"p.knut\"\n2020-01-05 \"t\"\nAssets:A Expenses:Food 1 CHF\n\n", "x.knut": "2020-01-03 price EUR 1.1 CHF\ninclude \"p.knut\"\n",
